@@ -1203,3 +1203,34 @@ Proof.
   - rewrite E, El in Hb. rewrite <- app_assoc in Hb. cbn [app] in Hb.
     eapply capture_before_endcapture; [exact Hb|reflexivity].
 Qed.
+
+(* ------------------------------------------------------------------ the call-site path is build_context_of *)
+
+(* the string-keyed entries of the popped kwargs map, as supplied arguments *)
+Fixpoint str_entries (m : kmap) : ctx :=
+  match m with
+  | [] => []
+  | (KStr s _, v) :: t => (s, v) :: str_entries t
+  | _ :: t => str_entries t
+  end.
+
+Lemma str_keys_entries : forall m, str_keys m = ctx_keys (str_entries m).
+Proof.
+  induction m as [|[k v] m IH]; [reflexivity|]. destruct k; cbn; [exact IH|exact IH|f_equal; exact IH].
+Qed.
+
+Lemma kw_get_entries : forall m k, kw_get m k = ctx_get (str_entries m) k.
+Proof.
+  unfold kw_get. induction m as [|[k0 v] m IH]; intros k; [reflexivity|].
+  destruct k0 as [b|r z|s o]; cbn; [apply IH|apply IH|].
+  destruct (str_eqb s k); [reflexivity|apply IH].
+Qed.
+
+(* what a call site hands to build_context is build_context_of on the string-keyed entries:
+   entries under non-string keys (possible through a spread) are dropped *)
+Lemma vm_call_is_build_context_of : forall d m body,
+  build_context d (str_keys m) (kw_get m) body = build_context_of d (str_entries m) body.
+Proof.
+  intros d m body. unfold build_context_of. rewrite str_keys_entries.
+  apply build_context_ext. apply kw_get_entries.
+Qed.
